@@ -113,7 +113,3 @@ func cmdVerify(args []string) {
 	fmt.Printf("%d obligations, %d not discharged\n", len(obls), bad)
 }
 
-func cmdCheck(args []string) int {
-	fmt.Println("not implemented yet")
-	return 2
-}
